@@ -73,23 +73,75 @@ def check_window_chunk(args):
     return len(windows), sizes, bad
 
 
-def enumerate_windows(L, bigrams):
-    toks = [(t, bkey(absmach.parse_peep(t))) for t in ALPHABET]
-    out = []
+EXTENDED = {'GetModSym:257', 'SetModSym:257', 'GetPropByName:256', 'SetPropByName:256', 'GetSuper:256', 'Label:256',
+            'Jump:256'}
 
+
+def window_chunks(L, bigrams, alphabet, size=4000):
+    """all compiler-shaped windows of length <= L over `alphabet`, streamed in chunks (never all in memory)"""
+    toks = [(t, bkey(absmach.parse_peep(t))) for t in alphabet]
+    chunk = []
+    stack = [([], None)]
+    # iterative depth-first enumeration in the same order as the recursive definition
     def rec(prefix, last_key):
         if prefix:
-            out.append(tuple(prefix))
+            yield tuple(prefix)
         if len(prefix) == L:
             return
         for t, k in toks:
             if last_key is not None and (last_key, k) not in bigrams:
                 continue
             prefix.append(t)
-            rec(prefix, k)
+            yield from rec(prefix, k)
             prefix.pop()
-    rec([], None)
-    return out
+    for w in rec([], None):
+        chunk.append(w)
+        if len(chunk) >= size:
+            yield chunk
+            chunk = []
+    if chunk:
+        yield chunk
+
+
+def count_windows(L, bigrams, alphabet):
+    """number of windows window_chunks would produce (dynamic programming over the adjacency relation)"""
+    keys = [bkey(absmach.parse_peep(t)) for t in alphabet]
+    ends = {}
+    for k in keys:
+        ends[k] = ends.get(k, 0) + 1          # windows of length 1 ending in key k (several tokens share a key)
+    mult = dict(ends)
+    total = sum(ends.values())
+    for _ in range(L - 1):
+        nxt = {}
+        for a, n in ends.items():
+            for b, m in mult.items():
+                if (a, b) in bigrams:
+                    nxt[b] = nxt.get(b, 0) + n * m
+        ends = nxt
+        total += sum(ends.values())
+    return total
+
+
+def run_windows(chk, lypeep, L, bigrams, alphabet, label):
+    import multiprocessing
+    n_expected = count_windows(L, bigrams, alphabet)
+    chk.count('windows_enumerated_%s_L%d' % (label, L), n_expected)
+    rewritten = 0
+    seen = 0
+    mid = []
+    ctx = multiprocessing.get_context('fork')
+    with ctx.Pool(vlib.NCPU) as pool:
+        args = ((lypeep, c) for c in window_chunks(L, bigrams, alphabet))
+        for n, sizes, bad in pool.imap_unordered(check_window_chunk, args, chunksize=1):
+            seen += n
+            chk.evaluations += n
+            rewritten += sizes
+            for w, why, line in bad:
+                chk.violation('window: ' + why, {'window.txt': ';'.join(w) + '\n' + line + '\n'},
+                              {'window': list(w), 'optimised': line, 'why': why})
+    if seen != n_expected:
+        chk.inconclusive.append('window enumeration produced %d windows, the count says %d' % (seen, n_expected))
+    return rewritten
 
 
 def main():
@@ -142,21 +194,24 @@ def main():
     chk.count('recorded_streams_changed_by_optimiser', changed)
     chk.count('bigrams_observed', len(bigrams))
     # ---- (2) windows -------------------------------------------------------
-    windows = enumerate_windows(L, bigrams)
-    chk.count('windows_enumerated_L%d' % L, len(windows))
-    chunks = [windows[i:i + 4000] for i in range(0, len(windows), 4000)]
-    res = vlib.pmap(check_window_chunk, [(bins['lypeep'], c) for c in chunks])
-    rewritten = 0
-    for n, sizes, bad in res:
-        chk.evaluations += n
-        rewritten += sizes
-        for w, why, line in bad:
-            chk.violation('window: ' + why, {'window.txt': ';'.join(w) + '\n' + line + '\n'},
-                          {'window': list(w), 'optimised': line, 'why': why})
+    # the full alphabet (with the aliasing 16-bit operands) up to the largest length that stays within the window
+    # budget, the base alphabet one step further
+    budget = int(os.environ.get('VERIF_WINDOWS', '0')) or (2_000_000 if tier == "quick" else 200_000_000)
+    base = [t for t in ALPHABET if t not in EXTENDED]
+    L_full = L
+    while L_full > 1 and count_windows(L_full, bigrams, ALPHABET) > budget:
+        L_full -= 1
+    rewritten = run_windows(chk, bins['lypeep'], L_full, bigrams, ALPHABET, 'full')
+    L_base = L_full
+    while L_base < L and count_windows(L_base + 1, bigrams, base) <= budget:
+        L_base += 1
+    if L_base > L_full:
+        rewritten += run_windows(chk, bins['lypeep'], L_base, bigrams, base, 'base')
+    chk.extra['window_length_full_alphabet'] = L_full
+    chk.extra['window_length_base_alphabet'] = max(L_base, L_full)
     chk.count('windows_rewritten_by_optimiser', rewritten)
-    for i in range(rewritten):
-        if i < 100000:
-            chk.distinct.add(('w', i))
+    for i in range(min(rewritten, 100000)):
+        chk.distinct.add(('w', i))
     # ---- (3) long runs -----------------------------------------------------
     longs = []
     for n in (2, 3, 17, 128, 254, 255, 256, 257, 300, 511, 600):
@@ -172,14 +227,14 @@ def main():
                       {'window': list(w)[:10], 'len': len(w), 'why': why})
     chk.rule = ('(1) every distinct pre-optimisation stream the real compiler produced for the corpus (fixtures + %d '
                 'generated programs) checked against the recorded optimiser output; (2) ALL windows of length <= %d '
-                'over a %d-symbol alphabet whose adjacent instruction pairs occur in some recorded compiler stream, '
+                '(full alphabet; base alphabet without the aliasing operands one length further where the window budget allows) over a %d-symbol alphabet whose adjacent instruction pairs occur in some recorded compiler stream, '
                 'run through the real peephole_optimize; (3) long drop/load runs. Oracle: abstract stack machine '
                 '(events, final stack, variables) from the entry and from every label + line provenance. '
                 'distinct_nontrivial = cases the optimiser actually rewrote' % (n_gen, L, len(ALPHABET)))
     chk.extra['exhaustive'] = True
     chk.extra['window_length'] = L
     chk.extra['alphabet'] = ALPHABET
-    chk.samples = [';'.join(w) for w in windows[len(windows) // 2: len(windows) // 2 + 3]] or ['(none)']
+    chk.samples = [';'.join(w) for w in next(window_chunks(min(L, 3), bigrams, ALPHABET, size=2000))[1000:1003]] or ['(none)']
     chk.require('recorded streams', len(distinct_streams), 200)
     chk.require('windows rewritten', rewritten, 50)
     return chk.finish()
